@@ -21,7 +21,7 @@ from dataclasses import dataclass, field
 from core.guards import Formula, conds_formula
 from core.loader import ancestors, norm, own_nodes, parent
 
-from .c11_lib import COMPS, Def, Fn, alias_names, copy_node, substitute
+from .c11_lib import COMPS, Fn, copy_node, substitute
 from .common import conds as conds_at
 from .common import copy_prop, stmt_of
 
